@@ -32,6 +32,10 @@ def run(ctx):
     ctx.guarded("R08.1", "respond", lambda: respond_mirror(ctx))
     ctx.guarded("R08.1", "flush", lambda: mirror(ctx, "R08.1", srv.FLUSH, ("write",)))
     ctx.guarded("R08.3", "switch", lambda: switch_conditions(ctx))
+    ctx.rule("R08.5", "every supplied response reaches the client in full and in order: the writer's bookkeeping under short/interrupted writes and the FIFO discipline of the response queue (= C06 R06.1-R06.5, R06.7)")
+    from .c06 import paths as writer_paths, fifo
+    ctx.guarded("R08.5", "writer", lambda: writer_paths(ctx, "R08.5"))
+    ctx.guarded("R08.5", "fifo", lambda: fifo(ctx, "R08.5", "response_queue", {"push_back", "pop_front", "clear"}))
     ctx.rule("R08.4", "one try_read / try_write per readiness notification (a second write on a full socket would report EAGAIN and close a healthy connection); served streams are non-blocking")
     from .c09 import single_io, nonblocking
     ctx.guarded("R08.4", "single-io", lambda: single_io(ctx, "R08.4"))
@@ -170,9 +174,11 @@ def respond_mirror(ctx):
                 ctx.ob("R08.2", "mod|exactly-one-direction|%s|0x%x" % (f.name.split("::")[-1], v or 0), ok, "epoll_mod event set 0x%x contains exactly one of IN/OUT" % (v or 0), fn2.loc(m[1]))
 
 
-def switch_conditions(ctx):
+def switch_conditions(ctx, which=("read", "write")):
     facts = ctx.facts
     for w, (target, _i) in TRANS.items():
+        if w not in which:
+            continue
         fn, lv = leaves(ctx, CC + w)
         n = 0
         for lf in lv:
@@ -186,12 +192,16 @@ def switch_conditions(ctx):
             if closed:
                 continue
             n += 1
+            if pw is None:
+                ctx.fail("R08.3", "%s|pending-not-consulted" % w, "%s(): a non-closing path decides the connection's direction without consulting pending_write(): the state can disagree with what is queued" % w, fn.loc(lf.bb), witness="blocks %s" % lf.trace[-8:])
+                continue
             want = (pw is True) if w == "read" else (pw is False)
             ctx.ob("R08.3", "%s|pending=%s" % (w, pw), (target in vals) == want, "%s(): state := %s %s (pending_write() = %s)" % (w, target, "is made" if target in vals else "is not made", pw), fn.loc(lf.bb))
             others = [v for v in vals if v != target]
             ctx.ob("R08.3", "%s|no-other-state|pending=%s" % (w, pw), not others, "%s(): no other state is assigned on a non-closing path (%s)" % (w, others), fn.loc(lf.bb))
         ctx.ob("R08.3", "%s|floor" % w, n >= 2, "%d non-closing Ok paths of %s() classified (floor 2)" % (n, w), fn.loc(0))
-    conn_pw(ctx)
+    if "write" in which:
+        conn_pw(ctx)
 
 
 def conn_pw(ctx):
